@@ -539,7 +539,8 @@ def run_case(ctx, case, count=True):
                 continue
             if owned_broken:
                 continue
-            if not same(after, p):
+            # (the `add0` wrapper turns -0.0 into 0.0, as NumPy's own `p + 0` does: compare with that)
+            if not same(after, p + 0 if case["pre"] == "add0" and p.dtype.kind in "fc" else p):
                 fail("source-collection-changed", f"source {i}: x.compute() after the computation no longer returns the source data: {head(p)} -> {head(after)}")
             elif not same(rawv, ucopy[i]):
                 fail("source-collection-changed", f"source {i}: from_array(...).compute() after the computation no longer returns the data: {head(ucopy[i])} -> {head(rawv)}")
